@@ -180,7 +180,7 @@ def stress_mode_switch(ctx, x, y):
     # one algorithm, two graphs of the SAME shape (same kinds of positions, same creation order) selected by a
     # user context parameter: anything that identifies a graph by its shape instead of its content confuses them
     if ctx.parameters.get("mode") == "multiplicative":
-        return ctx.select(x > y, x * y, x / y)
+        return ctx.select(x <= y, x * y, x / y)  # (not `>`: the rewriter mirrors it, which changes the creation order)
     return ctx.select(x < y, x + y, x - y)
 
 
